@@ -3,7 +3,22 @@
 IA = "src/tola/assembly/indexed_assembly.py"
 OR = "src/tola/assembly/overlap_result.py"
 
+IX = "src/tola/fasta/index.py"
+BA = "src/tola/assembly/build_assembly.py"
+P2A = "src/tola/assembly/scripts/pretext_to_asm.py"
+
 MUTANTS = [
+    # ---- C15 ----------------------------------------------------------------
+    {"id": "c15-shared-temp-name", "props": ["C15"], "edits": [
+        {"file": IX, "old": 'return file.with_name(f"{file.name}.{os.getpid()}.tmp")', "new": 'return file.with_name(f"{file.name}.tmp")'}]},
+    {"id": "c15-freshness-ge", "props": ["C15"], "edits": [
+        {"file": IX, "old": "if not idx_file.stat().st_mtime > fasta_mtime:", "new": "if not idx_file.stat().st_mtime >= fasta_mtime:"}]},
+    {"id": "c15-check-only-fai", "props": ["C15"], "edits": [
+        {"file": IX, "old": "for idx_file in self.fai_file, self.agp_file:", "new": "for idx_file in (self.fai_file,):"}]},
+    {"id": "c15-in-place-write-agp", "props": ["C15"], "edits": [
+        {"file": IX, "old": "        tmp_file = self.temp_file_for(self.agp_file)\n", "new": "        tmp_file = self.agp_file\n"},
+        {"file": IX, "old": "        tmp_file.replace(self.agp_file)\n", "new": ""}]},
+
     # ---- C12 ----------------------------------------------------------------
     {"id": "c12-left-extension-off-by-one", "props": ["C12"], "edits": [
         {"file": IA, "old": "            if idx[i] < bait_start:\n", "new": "            if idx[i] <= bait_start:\n"}]},
